@@ -432,6 +432,7 @@ class BaseParser:
         dependencies = set()
         unprovided_fields = set()
         provided = {}
+        attempted = set()
         options = context.options
 
         for key, value in data.items():
@@ -464,6 +465,7 @@ class BaseParser:
             if excluded_keys and name in excluded_keys:
                 continue
 
+            attempted.add(name)
             parsed = field.parse_value(value, context=context)
             if unprovided(parsed):
                 continue
@@ -479,7 +481,8 @@ class BaseParser:
             # if required field is ignored. we do not need to check for required fields
             for key, field in self.fields.items():
                 name = field.attname if as_attname else field.name
-                if name in result:
+                if name in result or name in attempted:
+                    # a field that was given a value (even an invalid / excluded one) is not absent
                     continue
                 if excluded_keys and name in excluded_keys:
                     continue
